@@ -120,14 +120,18 @@ visits from inside its own `visit_*`
 Two things the code does that the tree-with-one-action-per-node picture leaves out:
 
 * `dact id` — the pruning exception the MAIN visitor's `depart_*` raises for node `id`
-  (`.none`: it returns).  `Visitor.depart` runs `super().depart(ob)` unguarded: the exception skips the
-  AFTER and OUTTER extensions of the node and leaves `walkabout(ob)` (the call `self.depart(...)` is outside
-  every `try`).  In the parent it arrives inside `for child …: self.walkabout(child)`: `SkipSiblings` is
-  caught by the loop's `except SkipSiblings`, `SkipChildren` by the outer `except SkipChildren` (both end
-  the loop, the parent is departed), `SkipNode` / `SkipDeparture` are caught nowhere and leave every
-  enclosing `walkabout` at once.
+  (`.none`: it returns).  Since 97d973e `Visitor.depart` catches it around `super().depart(ob)`, lets the
+  AFTER and OUTTER extensions leave the node and re-raises; `walkabout` wraps `self.depart(...)`:
+  `SkipSiblings` becomes the pending `skip_siblings` (raised to the parent's loop once the node is left), the
+  other three are ignored ("not applicable once the node is left").  Before 97d973e (`departEventsGOld`,
+  `finishGOld`, `walkaboutGOld`) `super().depart(ob)` was unguarded: the exception skipped the AFTER and OUTTER
+  extensions and left `walkabout(ob)`; in the parent `SkipSiblings` was caught by the loop's
+  `except SkipSiblings`, `SkipChildren` by the outer `except SkipChildren`, `SkipNode` / `SkipDeparture`
+  nowhere (they left every enclosing `walkabout` at once) — the parent's handlers are unchanged and still
+  transcribed in `walkaboutF`.
 * `inl id` — the nodes the main visitor's `visit_*` of node `id` visits itself through
-  `Visitor.visit(child)` (`ModuleVistor.visit_Expr` → `NodeVisitor.generic_visit`): the complete enter
+  `Visitor.visit(child)` (`NodeVisitor.generic_visit`; `ModuleVistor.visit_Expr` did that for the value of
+  every expression statement until 090633d, since then `get_children` yields the value): the complete enter
   block of each of them (extensions and main visitor) happens inside the main visitor's visit of `id`,
   that is before the AFTER and INNER extensions enter `id`; nobody departs them.
 
@@ -139,59 +143,91 @@ def visitEventsG (inl : Nat → List Nat) (exts : List When) (id : Nat) : List E
     ++ (inl id).flatMap (visitEvents exts)
     ++ evs .visit id (extsOf exts .after ++ extsOf exts .inner)
 
-/-- `Visitor.depart(ob, extensions_only)` when the main `depart_*` may raise. -/
+/-- `Visitor.depart(ob, extensions_only)` when the main `depart_*` may raise: the exception is kept until the
+AFTER and OUTTER extensions have left, then re-raised (second component). -/
 def departEventsG (dact : Nat → Act) (exts : List When) (id : Nat) (extOnly : Bool) : List Event × Option Act :=
+  let pre := evs .depart id (extsOf exts .before ++ extsOf exts .inner)
+  let post := evs .depart id (extsOf exts .after ++ extsOf exts .outter)
+  if extOnly then (pre ++ post, none)
+  else (pre ++ [⟨.main, .depart, id⟩] ++ post, if dact id = .none then none else some (dact id))
+
+/-- the tail of `walkabout`: `try: self.depart(ob, extensions_only=not call_depart)` /
+`except SkipSiblings as ex: skip_siblings = ex` / `except _TreePruningException: pass`, then
+`raise skip_siblings` if the visit or the departure asked for it. -/
+def finishG (dact : Nat → Act) (exts : List When) (id : Nat) (act : Act) (tr : List Event) (extOnly : Bool) :
+    List Event × Option Act :=
+  let d := departEventsG dact exts id extOnly
+  match d.2 with
+  | some .skipSiblings => (tr ++ d.1, some .skipSiblings)
+  | _ => (tr ++ d.1, if act = .skipSiblings then some .skipSiblings else none)
+
+/-- `Visitor.depart` before 97d973e: `super().depart(ob)` unguarded. -/
+def departEventsGOld (dact : Nat → Act) (exts : List When) (id : Nat) (extOnly : Bool) : List Event × Option Act :=
   let pre := evs .depart id (extsOf exts .before ++ extsOf exts .inner)
   let post := evs .depart id (extsOf exts .after ++ extsOf exts .outter)
   if extOnly then (pre ++ post, none)
   else if dact id = .none then (pre ++ [⟨.main, .depart, id⟩] ++ post, none)
   else (pre ++ [⟨.main, .depart, id⟩], some (dact id))
 
-/-- the tail of `walkabout`: `self.depart(ob, extensions_only=not call_depart)`, then `raise skip_siblings`
-if the visit asked for it. -/
-def finishG (dact : Nat → Act) (exts : List When) (id : Nat) (act : Act) (tr : List Event) (extOnly : Bool) :
+/-- the tail of `walkabout` before 97d973e: `self.depart(...)` outside every `try`. -/
+def finishGOld (dact : Nat → Act) (exts : List When) (id : Nat) (act : Act) (tr : List Event) (extOnly : Bool) :
     List Event × Option Act :=
-  let d := departEventsG dact exts id extOnly
+  let d := departEventsGOld dact exts id extOnly
   match d.2 with
   | some e => (tr ++ d.1, some e)
   | none => (tr ++ d.1, if act = .skipSiblings then some .skipSiblings else none)
 
 mutual
-def walkaboutG (inl : Nat → List Nat) (dact : Nat → Act) (exts : List When) : Tree → List Event × Option Act
+/-- `walkabout` up to its tail `fin id act trace extensions_only` (the part 97d973e changed). -/
+def walkaboutF (fin : Nat → Act → List Event → Bool → List Event × Option Act) (inl : Nat → List Nat)
+    (exts : List When) : Tree → List Event × Option Act
   | .node id act cs =>
     let v := visitEventsG inl exts id
     match act with
-    | .skipNode      => finishG dact exts id .skipNode v true
-    | .skipChildren  => finishG dact exts id .skipChildren v false
+    | .skipNode      => fin id .skipNode v true
+    | .skipChildren  => fin id .skipChildren v false
     | .skipDeparture =>
-      let k := walkChildrenG inl dact exts cs
+      let k := walkChildrenF fin inl exts cs
       match k.2 with
       | some .skipNode => (v ++ k.1, some .skipNode)
       | some .skipDeparture => (v ++ k.1, some .skipDeparture)
-      | _ => finishG dact exts id .skipDeparture (v ++ k.1) true
+      | _ => fin id .skipDeparture (v ++ k.1) true
     | .none =>
-      let k := walkChildrenG inl dact exts cs
+      let k := walkChildrenF fin inl exts cs
       match k.2 with
       | some .skipNode => (v ++ k.1, some .skipNode)
       | some .skipDeparture => (v ++ k.1, some .skipDeparture)
-      | _ => finishG dact exts id .none (v ++ k.1) false
+      | _ => fin id .none (v ++ k.1) false
     | .skipSiblings =>
-      let k := walkChildrenG inl dact exts cs
+      let k := walkChildrenF fin inl exts cs
       match k.2 with
       | some .skipNode => (v ++ k.1, some .skipNode)
       | some .skipDeparture => (v ++ k.1, some .skipDeparture)
-      | _ => finishG dact exts id .skipSiblings (v ++ k.1) false
+      | _ => fin id .skipSiblings (v ++ k.1) false
 /-- the children loop; second component: the exception that ended it (whoever catches it). -/
-def walkChildrenG (inl : Nat → List Nat) (dact : Nat → Act) (exts : List When) : List Tree → List Event × Option Act
+def walkChildrenF (fin : Nat → Act → List Event → Bool → List Event × Option Act) (inl : Nat → List Nat)
+    (exts : List When) : List Tree → List Event × Option Act
   | [] => ([], none)
   | t :: ts =>
-    let r := walkaboutG inl dact exts t
+    let r := walkaboutF fin inl exts t
     match r.2 with
     | some e => (r.1, some e)
     | none =>
-      let k := walkChildrenG inl dact exts ts
+      let k := walkChildrenF fin inl exts ts
       (r.1 ++ k.1, k.2)
 end
+
+/-- `Visitor.walkabout` as it is. -/
+def walkaboutG (inl : Nat → List Nat) (dact : Nat → Act) (exts : List When) (t : Tree) : List Event × Option Act :=
+  walkaboutF (finishG dact exts) inl exts t
+
+def walkChildrenG (inl : Nat → List Nat) (dact : Nat → Act) (exts : List When) (ts : List Tree) :
+    List Event × Option Act :=
+  walkChildrenF (finishG dact exts) inl exts ts
+
+/-- `Visitor.walkabout` before 97d973e (historical). -/
+def walkaboutGOld (inl : Nat → List Nat) (dact : Nat → Act) (exts : List When) (t : Tree) : List Event × Option Act :=
+  walkaboutF (finishGOld dact exts) inl exts t
 
 /-! ### Specification side: what the pruning actions *mean* (from the class docstrings) -/
 
@@ -217,6 +253,32 @@ def pruneList : List Tree → List PTree
   | (.node id act cs) :: ts =>
     if act = .skipSiblings then [prune (.node id act cs)]
     else prune (.node id act cs) :: pruneList ts
+end
+
+/-- does the main visitor's `depart_*` run for a node whose `visit_*` raised `a` -/
+def mainDeparts (a : Act) : Bool := a != .skipNode && a != .skipDeparture
+
+/-- the siblings to the right of the node are skipped: its `visit_*` raised SkipSiblings, or its `depart_*`
+ran and raised it -/
+def stopsG (dact : Nat → Act) (id : Nat) (act : Act) : Bool :=
+  act == .skipSiblings || (mainDeparts act && dact id == .skipSiblings)
+
+mutual
+/-- `prune` when departures raise as well: only SkipSiblings means something there (the other three are
+"not applicable once the node is left"). -/
+def pruneG (dact : Nat → Act) : Tree → PTree
+  | .node id act cs =>
+    match act with
+    | .skipNode      => .node id false []
+    | .skipChildren  => .node id true []
+    | .skipDeparture => .node id false (pruneListG dact cs)
+    | .none          => .node id true (pruneListG dact cs)
+    | .skipSiblings  => .node id true (pruneListG dact cs)
+def pruneListG (dact : Nat → Act) : List Tree → List PTree
+  | [] => []
+  | (.node id act cs) :: ts =>
+    if stopsG dact id act then [pruneG dact (.node id act cs)]
+    else pruneG dact (.node id act cs) :: pruneListG dact ts
 end
 
 mutual
